@@ -18,6 +18,8 @@ use vp_common::report::{self, Cli, Report};
 
 const RULE: &str = "seeded random histories (initial list, then <= 15 steps of ADDED / MODIFIED / DELETED / BOOKMARK over <= 8 GameServers and all 11 Agones states, with unconvertible objects) in which watch faults are enumerated round-robin over 8 fault kinds (clean / abrupt / mid-line drop, live 410, 410 on resume, each optionally with a re-list attempt failing at a page) x 8 classes of change applied while disconnected; one evaluation = one history run against the real adapter with every step judged; a history is non-trivial if at least one judged step changes the expected offered set or the fields of an offered server, distinct = distinct sequence of (event kind, state-class transition of the touched server, fault kind, offline change)";
 
+const RULE_REPLAY: &str = "replay of the single history of a witness file against the real adapter; one evaluation = one judged step of it (initial list, event, bookmark, fault, quiescence); a step is non-trivial if it changes the expected offered set or the fields of an offered server, distinct = distinct (event kind, state-class transition, fault kind, offline change) among those";
+
 fn main() {
     let cli = Cli::parse();
 
@@ -53,7 +55,8 @@ fn main() {
     }
 
     report::watchdog(&cli.prop, cli.tier.pick(300, 1500));
-    let mut report = Report::new(&cli, "fault_enumeration", RULE);
+    let rule = if cli.replay.is_some() { RULE_REPLAY } else { RULE };
+    let mut report = Report::new(&cli, "fault_enumeration", rule);
     report.set_max_samples(3);
 
     let extra_u64 = |k: &str| cli.extra.get(k).and_then(|s| s.parse::<u64>().ok());
@@ -76,7 +79,7 @@ fn main() {
             }
         }
         None => {
-            let n = extra_u64("histories").unwrap_or_else(|| cli.scaled(cli.tier.pick(32, 512)));
+            let n = extra_u64("histories").unwrap_or_else(|| cli.scaled(cli.tier.pick(32, 1024)));
             let faults = cli.tier.pick(2, 3);
             ((0..n).map(|i| history::generate(cli.seed, i, 15, faults)).collect(), false)
         }
@@ -122,7 +125,14 @@ fn main() {
         if outcome.steps_judged == 0 {
             continue;
         }
-        report.eval(if nontrivial { Some(&shape) } else { None });
+        if replaying {
+            report.add_evals(outcome.steps_judged);
+            for token in shape.split(' ').filter(|t| history::token_is_nontrivial(t)) {
+                report.add_distinct(token);
+            }
+        } else {
+            report.eval(if nontrivial { Some(&shape) } else { None });
+        }
         report.count("steps judged (initial list, events, bookmarks, faults, quiescence)", outcome.steps_judged);
         for (k, v) in &outcome.counters {
             report.count(k, *v);
@@ -177,6 +187,7 @@ fn main() {
     report.assume("at most three error-class faults per history, ordered so that the watcher's exponential back-off (0.8 s doubling, jitter < 2x, assumed never reset) stays below 7 s, inside the 10 s bound");
     report.assume("identifier of a target = metadata.name; targets are compared as a set keyed by identifier, order is not judged; metadata keys the object never carried are tolerated");
     report.assume("generated objects always deserialise (status.address and status.state present, ports absent or a list, never null) and their counter / list / label / annotation keys do not collide with each other or with 'state'");
+    report.assume("the watcher configuration is the one passage builds (list + watch with bookmarks, 290 s watch timeout) with page sizes 1, 2, 3, 500 and unlimited; streaming lists (sendInitialEvents) are not exercised");
     report.assume("membership and fields of a server whose latest object is Ready/Allocated but unconvertible (no ports, unparsable address) are not judged");
     report.assume("harness lateness above a quarter of the bound (side timers on the runtime and on a plain thread) voids a timing verdict: the history is retried once, then reported inconclusive");
 
